@@ -4,6 +4,7 @@ import (
 	"encoding/json"
 	"fmt"
 	"io"
+	"math"
 	"net/http"
 	reflect "reflect"
 	"regexp"
@@ -125,6 +126,15 @@ func checkFloatMatch(query float64, field []float64) bool {
 	return false
 }
 
+// a number decoded as float64 matches an integer field value if it is integral,
+// and a non-integral field value otherwise.
+func checkNumberMatch(query float64, fieldNums []int64, fieldFloats []float64) bool {
+	if query == math.Trunc(query) && math.Abs(query) < 1<<63 {
+		return checkIntMatch(int64(query), fieldNums)
+	}
+	return checkFloatMatch(query, fieldFloats)
+}
+
 func checkStrMatch(query string, field []string) bool {
 	if len(field) == 0 {
 		return false
@@ -227,6 +237,10 @@ func checkField(queryValue, fieldValue interface{}) bool {
 		if checkRegexMatch(v, fieldStrList) {
 			return true
 		}
+	case float64:
+		if checkNumberMatch(v, fieldNumList, fieldFloatList) {
+			return true
+		}
 	case []interface{}:
 		// a list of mixed element types: each element is matched according to its own type
 		for _, val := range v {
@@ -236,7 +250,8 @@ func checkField(queryValue, fieldValue interface{}) bool {
 					return true
 				}
 			case float64:
-				if checkFloatMatch(query, fieldFloatList) {
+				// every number of a mixed list is decoded as a float64, integers included
+				if checkNumberMatch(query, fieldNumList, fieldFloatList) {
 					return true
 				}
 			case string:
